@@ -136,7 +136,8 @@ impl<L: Language> SerializableRuleConfig<L> {
       // a `rewrite` transformation must not refer to rewriters that do not exist
       return check_rewriters_in_transform(rule, reg.get_rewriters());
     };
-    let vars = rule.defined_vars();
+    // a rewriter's fix sees the nodes captured by the enclosing rule, not its transformed texts
+    let vars = rule.captured_vars();
     for val in ser {
       if val.core.fix.is_none() {
         return Err(RuleConfigError::NoFixInRewriter(val.id.clone()));
